@@ -319,6 +319,10 @@ def r5_bookkeeping(r, facts):
             for l, s in g.assigns():
                 names = [p.get('name') for p in s['lhs']['p'] if p['k'] == 'field']
                 if names[-1:] == ['skip']:
+                    if 'Vectored' in name:
+                        # up to N buffers of up to u32::MAX bytes each: the cumulative count of bytes done needs 64 bits
+                        r.inst('%s: cumulative skip counter is %s' % (name, s['lhs']['ty']), g.where(l))
+                        r.require(s['lhs']['ty'] in ('u64', 'usize', 'u128'), '%s/skip-width' % name, 'the cumulative count of transferred bytes is kept in %s: with more than 4 GiB in all buffers together it wraps (debug builds panic, release builds hand data to the kernel a second time)' % s['lhs']['ty'], g.where(l))
                     e = eb.rvalue(s['rv'])
                     if e[0] == 'proj' and e[2] == ('.0',):
                         e = e[1]
